@@ -779,7 +779,11 @@ func builtinSprintfFunc(c Call) (ret Object, err error) {
 }
 
 func builtinGlobalsFunc(c Call) (Object, error) {
-	return c.VM().GetGlobals(), nil
+	vm := c.VM()
+	if vm == nil {
+		return Undefined, nil
+	}
+	return vm.GetGlobals(), nil
 }
 
 func builtinIsErrorFunc(c Call) (ret Object, err error) {
